@@ -391,6 +391,7 @@ class ListBox(Widget, WidgetContainerMixin):
         # used for scrollable protocol
         self._rows_max_cached = 0
         self._rendered_size = 0, 0
+        self._zero_row_items: list[Widget] = []
 
     @property
     def body(self) -> ListWalker:
@@ -492,6 +493,9 @@ class ListBox(Widget, WidgetContainerMixin):
         trim_top = inset_rows
         focus_rows = focus_widget.rows((maxcol,), True)
 
+        # items inside the window that have no rows: not drawn, but the rendering depends on them (see render)
+        self._zero_row_items = []
+
         # 2. collect the widgets above the focus
         pos = focus_pos
         fill_lines = offset_rows
@@ -507,6 +511,8 @@ class ListBox(Widget, WidgetContainerMixin):
             p_rows = prev.rows((maxcol,))
             if p_rows:  # filter out 0-height widgets
                 fill_above.append(VisibleInfoFillItem(prev, pos, p_rows))
+            else:
+                self._zero_row_items.append(prev)
             if p_rows > fill_lines:  # crosses top edge?
                 trim_top = p_rows - fill_lines
                 break
@@ -526,6 +532,8 @@ class ListBox(Widget, WidgetContainerMixin):
             n_rows = next_pos.rows((maxcol,))
             if n_rows:  # filter out 0-height widgets
                 fill_below.append(VisibleInfoFillItem(next_pos, pos, n_rows))
+            else:
+                self._zero_row_items.append(next_pos)
             if n_rows > fill_lines:  # crosses bottom edge?
                 trim_bottom = n_rows - fill_lines
                 fill_lines -= n_rows
@@ -737,6 +745,11 @@ class ListBox(Widget, WidgetContainerMixin):
             combinelist.append((canvas, w_pos, False))
 
         final_canvas = CanvasCombine(combinelist)
+        if self._zero_row_items:
+            # an item without rows is not part of the canvas, but this rendering changes as soon as it gets some
+            final_canvas.set_depends(
+                [*(w for w, _p, _r in fill_above), focus_widget, *(w for w, _p, _r in fill_below), *self._zero_row_items]
+            )
 
         if trim_top:
             final_canvas.trim(trim_top)
